@@ -68,6 +68,19 @@ def run(prog, rep, tier='quick'):
                 # the layout for every other size (reported once per construct; the derived map is not meaningful then)
                 if report_conflicts(rep, 'axis', itp, ('index',), '%s,%s' % (cls.name, label), seen_idx):
                     continue
+                # the real / complex decision (hence the layout of the stored PSD) must follow the dtype of the data
+                dtv = obj.f.get('_Spectrum__datatype') if obj is not None else None
+                want_dt = 'complex' if cplx else 'real'
+                if dtv is not None and not (isinstance(dtv, Const) and dtv.v == want_dt):
+                    key = ('datatype', cls.name, cplx)
+                    if key not in seen_idx:
+                        seen_idx.add(key)
+                        dep = sorted(str(z) for z in taint_of(dtv) if not str(z).startswith('V:'))
+                        rep.violation('len', cls.qname, 'datatype [%s]' % label, 'for %s-dtype data the datatype attribute is %s%s: the '
+                                      'one-/two-sided layout is not a function of the dtype (samples declared complex whose imaginary '
+                                      'parts vanish are folded like real data)' % (want_dt, getattr(dtv, 'v', 'value dependent'),
+                                                                                  (' (depends on %s)' % dep) if dep else ''), loc(cls.mod, cls.node))
+                    continue
                 psd = obj.f.get(PSD_FIELD) if obj is not None else None
                 if not ok or not isinstance(psd, Num):
                     rep.violation('len', cls.qname, 'no estimate [%s]' % label,
